@@ -45,7 +45,7 @@ import traceback
 import numpy as np
 from hypothesis import strategies as st
 
-from ..core import HarnessError, Outcome, Violation, jhash
+from ..core import HarnessError, Outcome, Violation, jdump, jhash
 from ..hyp import run_machine
 from ..par import run_shards
 
@@ -1029,8 +1029,10 @@ def run(ctx):
     best = {}
     for v in out.violations:
         ops = (v.get("case") or {}).get("ops") or []
-        size = (len(ops), sum(len(o[1]) for o in ops
-                              if o[0] in ("init", "add")))
+        case = v.get("case") or {}
+        size = (len(ops),
+                sum(len(o[1]) for o in ops if o[0] in ("init", "add")),
+                case.get("space") == "machine", jdump(case))
         if v["key"] not in best or size < best[v["key"]][0]:
             best[v["key"]] = (size, v)
     out.violations = [best[k][1] for k in sorted(best)]
